@@ -360,11 +360,19 @@ inline long long do_kernel_call(TopologyKernel &m, const CallRec &c, bool *known
     if (op == "enable_vbu") { m.enable_vertex_bottom_up_incidences(c.f); return VOID; }
     if (op == "enable_ebu") { m.enable_edge_bottom_up_incidences(c.f); return VOID; }
     if (op == "enable_fbu") { m.enable_face_bottom_up_incidences(c.f); return VOID; }
+    if (op == "enable_bu") { m.enable_bottom_up_incidences(c.f); return VOID; }
+    if (op == "reorder") { m.reorder_incident_halffaces(EdgeHandle(c.a)); return VOID; }
+    if (op == "reserve") {
+        size_t n = (size_t)c.b;
+        if (c.a == 0) m.reserve_vertices(m.n_vertices() + n); else if (c.a == 1) m.reserve_edges(m.n_edges() + n);
+        else if (c.a == 2) m.reserve_faces(m.n_faces() + n); else m.reserve_cells(m.n_cells() + n);
+        return VOID;
+    }
     if (op == "clear") { m.clear(c.f); return VOID; }
     if (op == "status_gc") { do_status_gc(m, c); return VOID; }
     *known = false;
     return VOID;
 }
 
-inline bool is_bu_toggle(const std::string &op) { return op == "enable_vbu" || op == "enable_ebu" || op == "enable_fbu"; }
+inline bool is_bu_toggle(const std::string &op) { return op == "enable_vbu" || op == "enable_ebu" || op == "enable_fbu" || op == "enable_bu"; }
 
